@@ -231,6 +231,7 @@ def run(repo: Repo, rep: Report, tier: str) -> None:
     rep.extra["exhaustive"] = True
     rep.extra["pairs"] = n_pairs
     rep.extra["action_paths"] = n_paths
+    _delegate_event_sources(repo, rep, tier)
 
 
 def _branch_polarity(conds, pat: str):
@@ -437,3 +438,25 @@ def _check_event_maps(repo: Repo, rep: Report):
         if vals == ["Evt17", "Evt2"] and any(isinstance(x, ast.Raise) for x in raising):
             okt = True
     rep.check(okt, "event-map", "transport.T_CONNECT.result", "value not in ('Evt2', 'Evt17') -> raise", "transport connect result must be Evt2 or Evt17", mod=repo.mod("transport"), node=st)
+
+
+def _delegate_event_sources(repo, rep, tier):
+    """Table 9-10 is only honoured if the events it is indexed by are actually raised. The ARTIM expiry
+    (Evt18) has a single producer, the provider's reactor loop; C05's reactor-order rule decides that it
+    tests the timer unconditionally, first, on every iteration and that exactly one event is processed
+    per iteration. Its failures are failures of this property: a state/event pair that can no longer
+    occur is not reacted to as prescribed."""
+    from ..report import Report as _R
+    from . import c05
+
+    rep.rule("event-sources", "ARTIM expiry is raised as Evt18 unconditionally at the top of every reactor iteration; one event is dispatched per iteration (C05 reactor-order)")
+    sub = _R("C05", tier, c05.LEVEL, "")
+    c05.run(repo, sub, tier)
+    n = sum(1 for o in sub.obligations if o["rule"] == "reactor-order" and o["ok"])
+    rep.ok("event-sources", f"{n} reactor-order obligations (C05) hold", "")
+    for f in sub.failures:
+        if f["rule"] == "reactor-order":
+            f2 = dict(f)
+            f2["rule"] = "event-sources"
+            rep.obligations.append(f2)
+            rep.failures.append(f2)
